@@ -1,5 +1,7 @@
 //! Correspondence / oracle harness: links the real crate from /repo's working tree.
+mod anyshape;
 mod c01;
+mod c06;
 mod genr;
 mod rng;
 mod util;
@@ -15,6 +17,7 @@ fn main() {
     std::panic::set_hook(Box::new(|_| {}));
     let code = match args[1].as_str() {
         "c01" => c01::run(&args[2..]),
+        "c06" => c06::run(&args[2..]),
         other => {
             eprintln!("unknown property {other}");
             2
